@@ -87,7 +87,7 @@ type Monitor struct {
 var clauseKeywords = map[string]bool{
 	"func": true, "lemma": true, "spec": true, "iface": true, "uninterp": true,
 	"requires": true, "ensures": true, "loop": true, "pure": true, "trusted": true, "modifies": true,
-	"property": true, "let": true, "assert": true, "assume": true, "option": true, "monitor": true,
+	"property": true, "let": true, "assert": true, "assume": true, "use": true, "option": true, "monitor": true,
 	"after": true, "before": true, "ghost": true, "noinline": true, "refines": true, "note": true, "end": true,
 }
 
@@ -372,6 +372,13 @@ func parseContractLines(lines []rawLine, path, pkgPath string) ([]*Contract, err
 				return nil, fail(err)
 			}
 			cur.Stmts = append(cur.Stmts, LetStmt{Kind: "let", Names: names, Call: e, Line: rl.line, Src: rest, FnKey: fnKey})
+		case "use":
+			// use lemmaName(args): instantiate a lemma proved elsewhere (its requires become obligations, its ensures facts)
+			e, err := ParseCE(rest)
+			if err != nil {
+				return nil, fail(err)
+			}
+			cur.Stmts = append(cur.Stmts, LetStmt{Kind: "use", Expr: e, Line: rl.line, Src: rest})
 		case "assert", "assume":
 			if curMon != nil && kw == "assert" {
 				return nil, fail(fmt.Errorf("assert inside monitor must follow 'before'"))
